@@ -50,3 +50,13 @@ Theorem C18_flags : forall file verbose targets jobs kg,
                (exists j, jobs = Some j /\ x = show_dec (N.of_nat j)) \/ (exists k, kg = Some k /\ x = show_dec (N.of_nat k))).
 Proof. exact ninja_argv_shape. Qed.
 Print Assumptions C18_flags.
+
+(* clean: ninja's clean tool (cleandead with --unused) on the build file of the mode and nothing else:
+   -f <file> [-v] -t clean|cleandead; exit 1 iff ninja fails; nothing is generated *)
+Theorem C18_clean : forall ninja_ok file verbose unused,
+  main_clean ninja_ok file verbose unused =
+  {| o_actions := [ANinja ([S_ "-f"; file] ++ (if verbose then [S_ "-v"] else []) ++
+                           [S_ "-t"; if unused then S_ "cleandead" else S_ "clean"])];
+     o_exit := if ninja_ok (clean_argv file verbose unused) then 0 else 1 |}.
+Proof. intros ninja_ok file verbose unused. unfold main_clean, clean_argv, ninja_argv. destruct verbose; reflexivity. Qed.
+Print Assumptions C18_clean.
